@@ -12,6 +12,9 @@ types, assume_specifications, spec functions, lemmas):
   //@loop <ordinal> | <invariant text>   (invariant block for the n-th `while`/`for`/`loop` of that fn; 1-based)
   //@loopvar <ordinal> <name>        (`for PAT in EXPR` of that loop becomes `for PAT in <name>: EXPR` - Verus' syntax for
                                       naming the ghost iterator so that an invariant can mention its position)
+  //@extern <file> <impl anchor|-> <name> [ret=<ident>]   like //@fn, but ONLY the signature is taken from the repo: the body is
+                                      replaced by `unimplemented!()` under #[verifier::external_body] and the //@| clauses
+                                      are its ASSUMED contract (discharged by another unit, named in the template)
   //@ghost | <text>                  (ghost/proof line placed right after the opening brace of the body; erased code)
 
 Parameter patterns `In(pat): In<T>` (Bevy system input) are not accepted by the verus! macro; they are desugared the
@@ -219,7 +222,8 @@ def expand(template_path, repo='/repo'):
             tpl[i + 1:i + 1] = open(inc).read().splitlines()
         elif s == '//@endimpl':
             out.append('}')
-        elif s.startswith('//@fn '):
+        elif s.startswith('//@fn ') or s.startswith('//@extern '):
+            is_extern = s.startswith('//@extern ')
             parts = s.split()
             f = parts[1]
             ret = None
@@ -272,6 +276,9 @@ def expand(template_path, repo='/repo'):
             if in_lets or ghosts:
                 ob = body.index('{')
                 body = body[:ob + 1] + '\n' + '\n'.join(in_lets + ghosts) + body[ob + 1:]
+            if is_extern:
+                body = '{ unimplemented!() }'
+                out.append('    #[verifier::external_body]')
             out.append('    ' + sig.rstrip() + '\n' + '\n'.join(clauses) + '\n    ' + body)
             a, b = fn['span']
             side['functions'].append({
@@ -279,6 +286,7 @@ def expand(template_path, repo='/repo'):
                 'lines': [rc.line_of(text, a), rc.line_of(text, b)],
                 'body_sha256': hashlib.sha256(fn['body'].encode()).hexdigest()[:16],
                 'clauses': [c.strip() for c in clauses],
+                'assumed': is_extern,
             })
             for d in dropped:
                 side['dropped_statements'].append('%s::%s: %s' % (anchor, name, d))
